@@ -26,7 +26,10 @@ CLAIMS = {
              "exactly its operands. Does not decide evaluation against a reference engine.",
         note="Trusted: sly's run-time driver Parser.parse (LR shift/reduce loop), CPython ast/re; sa/lalr.py (validated "
              "entry-for-entry against sly's generated tables during development; sly's own conflict resolver is compared as a "
-             "truth table on every run).",
+             "truth table on every run). Modelling assumption of the proof: which productions are operator productions - every `expr -> expr T <operand>` "
+             "(operand = expr or a fixed word) whose T is an operator of the statement's list or NOT in infix position, `expr -> expr NOT IN expr`, BETWEEN, "
+             "the two prefix operators; infix operators outside the list (||, ->, ::) are listed in the evidence and not judged. Two defects of the unchanged tree "
+             "had been outside an earlier, narrower classification (DESIGN.md 9.27).",
         technique="static LALR(1) table reconstruction from source + exhaustive precedence-obligation scan + abstract interpretation of the operator actions"),
     "C05": dict(
         level="other", engine="grammar-lalr",
